@@ -688,3 +688,54 @@ def run_flagmono(chk, F, rid="R-FLAGMONO"):
                "of the same location disappear (and its operand stays on the builder's stack)" %
                (name, "; ".join(bad.get(name, []))), "%s:%s" % (loc["file"], loc["line"]),
                sample="%s: %d assignment(s), all raising" % (name, n))
+
+
+# --------------------------------------------------------------------------------------------- R-TAGUSE
+# tags the reader's table knows but never begins, confirmed by reading: why an element of that name cannot stop the descent
+TAGUSE_EXEMPT = {
+    "DETAILS": "part of <result>, which XMLReader::result() skips as a whole with close(RESULT)",
+    "PLOT": "part of <result> (see DETAILS)",
+    "SAMPLES": "part of <result> (see DETAILS)",
+    "SERIES": "part of <result> (see DETAILS)",
+}
+
+
+def run_taguse(chk, F, rid="R-TAGUSE"):
+    """XMLReader::begin(tag) skips elements whose name is *not* in the reader's tag table and returns false on a known
+    element with another tag.  A tag that is in the table but that no function ever begins is therefore worse than an
+    unknown one: the descent stops in front of it and everything after it - declarations, templates, system - is
+    dropped without a word."""
+    from .positions import tag_map
+    chk.rule(rid, "every tag of the XML reader's tag table is consumed by some function of the descent (passed to "
+                  "begin / close / a repetition helper), or is listed as occurring only inside an element that is "
+                  "skipped as a whole")
+    tm = tag_map(F)
+    used = set()
+    for fn in F.functions.values():
+        if not (fn.get("file") or "").endswith("xmlreader.cpp") or fn.get("body") is None:
+            continue
+        for c in calls(fn["body"]):
+            for a in c.get("args", []):
+                for x in walk(a):
+                    if x.get("k") == "ref" and x.get("dk") == "enumerator" and (x.get("enum") or "").endswith("tag_t"):
+                        used.add(x["name"])
+    if len(tm) < 30:
+        raise AnalysisBroken("tag table has only %d entries" % len(tm))
+    rd = F.fn("UTAP::XMLReader::project")
+    for t in sorted(tm):
+        if t == "NONE":
+            continue
+        if t not in used and t in TAGUSE_EXEMPT:
+            chk.ob(rid, "%s|listed" % t, True, "", "src/xmlreader.cpp", sample="%s: %s" % (t, TAGUSE_EXEMPT[t]))
+            continue
+        chk.ob(rid, t, t in used,
+               "the reader knows the element <%s> but no function begins it: begin() skips unknown elements only, so a "
+               "model containing <%s> (e.g. <imports> as first child of <nta>) stops the descent there - the "
+               "declarations, templates and system after it are dropped and only `$Missing_system_tag` is reported" %
+               (sorted(tm[t])[0], sorted(tm[t])[0]), "%s:%s" % (rd["file"], rd["line"]))
+    if any(t in TAGUSE_EXEMPT and t not in used for t in tm):
+        rs = F.fn("UTAP::XMLReader::result", required=False)
+        ok = rs is not None and any(c.get("name") == "close" and any(x.get("name") == "RESULT" for x in walk(c.get("args", [])))
+                                    for c in calls(rs["body"]))
+        chk.ob(rid, "exempt|result-skipped", ok, "XMLReader::result() no longer skips the content of <result> with "
+               "close(RESULT): the listed tags inside it would stop the descent", "src/xmlreader.cpp")
